@@ -204,7 +204,7 @@ def run_V(records, w0, salt):
             want = A(fn(x))
             common.compare_value("C18.V." + name, name, A(got).T, want, step=i)
             n += 1
-        elif name == "get_conditional_mu":
+        elif name == "get_conditional_mu" and s.cls not in model.APPROX:
             x = jnp.asarray(rec["x"])
             got = _wrap("V", lambda: jax.vmap(lambda xi: o.get_conditional_mu(xi[None])[:, 0])(x))  # [N, R, Dy]
             want = A(o.get_conditional_mu(x))
